@@ -175,6 +175,93 @@ def undo_renames(raw):
     return (json.loads(text), done) if done else (raw, {})
 
 
+_FIELDS = None
+
+
+def undo_field_renames(raw):
+    """Rename tolerance for private fields: a struct/variant of the reference tree that still has the same number of
+    fields with the same types in the same order, but one or more different *names* for non-public fields, is taken to
+    have had those fields renamed; field projections, aggregates and the type table are rewritten to the reference
+    names.  Any other difference (a field added, removed, retyped, reordered) is left alone."""
+    global _FIELDS
+    from .lib.facts import strip_generics
+    if _FIELDS is None:
+        p = os.path.join(os.path.dirname(os.path.abspath(__file__)), 'known_fields.json')
+        _FIELDS = json.load(open(p)) if os.path.exists(p) else {}
+    ren = {}        # (adt, variant, new name) -> old name
+    for a in raw['adts']:
+        n = strip_generics(a['name'])
+        ref = _FIELDS.get(n)
+        if not ref:
+            continue
+        for v in a['variants']:
+            rf = ref.get(v['name'])
+            if rf is None or len(rf) != len(v['fields']):
+                continue
+            if [strip_generics(f['ty']) for f in v['fields']] != [t for _, t in rf]:
+                continue
+            for f, (oldn, _) in zip(v['fields'], rf):
+                if f['name'] != oldn and f.get('vis') != 'Public' and not f['name'].isdigit():
+                    ren[(n, v['name'], f['name'])] = oldn
+    if not ren:
+        return raw, {}
+    by_adt = {}
+    for (adt, var, newn), oldn in ren.items():
+        by_adt.setdefault(adt, {})[newn] = oldn
+
+    def fix_place(pl):
+        for e in pl.get('proj', []):
+            if e.get('k') == 'field' and e.get('owner'):
+                m = by_adt.get(strip_generics(e['owner']))
+                if m and e['name'] in m:
+                    e['name'] = m[e['name']]
+
+    def fix_operand(o):
+        if isinstance(o, dict) and 'place' in o and isinstance(o['place'], dict):
+            fix_place(o['place'])
+    for a in raw['adts']:
+        m = by_adt.get(strip_generics(a['name']))
+        if m:
+            for v in a['variants']:
+                for f in v['fields']:
+                    f['name'] = m.get(f['name'], f['name'])
+    allren = {}
+    for m in by_adt.values():
+        allren.update(m)
+    for b in raw['bodies'] + [p for b in raw['bodies'] for p in b.get('promoted', [])]:
+        for dv in b.get('debug', []):
+            if dv.get('place'):
+                fix_place(dv['place'])
+            if b.get('kind') == 'Closure' and '__' in (dv.get('name') or ''):
+                # captured places are named after their path: `self__records` -> `self__inner`
+                parts = dv['name'].split('__')
+                dv['name'] = '__'.join([parts[0]] + [allren.get(x, x) for x in parts[1:]])
+        for bl in b['blocks']:
+            for st in bl['stmts']:
+                if 'lhs' in st:
+                    fix_place(st['lhs'])
+                    rv = st['rv']
+                    if 'place' in rv and isinstance(rv['place'], dict):
+                        fix_place(rv['place'])
+                    for k in ('op', 'a', 'b'):
+                        fix_operand(rv.get(k))
+                    for o in rv.get('ops', []):
+                        fix_operand(o)
+                    if rv.get('k') == 'aggregate' and rv.get('fields'):
+                        m = by_adt.get(strip_generics(rv.get('name') or ''))
+                        if m:
+                            rv['fields'] = [m.get(x, x) for x in rv['fields']]
+            t = bl['term']
+            for k in ('dest', 'place'):
+                if isinstance(t.get(k), dict) and 'proj' in t[k]:
+                    fix_place(t[k])
+            for k in ('discr', 'cond', 'func'):
+                fix_operand(t.get(k))
+            for o in t.get('args', []) + t.get('ops', []):
+                fix_operand(o)
+    return raw, {'%s.%s' % (adt, newn): '%s.%s' % (adt, oldn) for (adt, var, newn), oldn in ren.items()}
+
+
 class Ctx:
     def __init__(self, report, tier):
         self.report = report
@@ -187,6 +274,8 @@ class Ctx:
         if config not in self._facts:
             raw = exporter.export(config)
             raw, renames = undo_renames(raw)
+            raw, frenames = undo_field_renames(raw)
+            renames = dict(renames, **frenames)
             f = Facts(raw)
             f.known = known_fns()
             f.renames = renames
